@@ -246,7 +246,8 @@ def random_ty(rng, d, bias="mixed"):
             for _ in range(10):
                 b = go(d - 1, "base")
                 if ok_newtype_base(b):
-                    return ("nt", b)
+                    # a NewType derived from another NewType (unwrap_newtype loops) in a third of the cases
+                    return ("nt", ("nt", b)) if rng.random() < 0.33 else ("nt", b)
             return ("nt", ("node", 0))
         if c == "union":
             if pos == "member":
@@ -480,7 +481,7 @@ class Chain:
         r = Renderer(self.uid, sp)
         self.class_names = []
         for k, fields in enumerate(levels):
-            base = f"C{k - 1}_{self.uid}" if k else "ASTNode"
+            base = self.base_expr(k)
             name = f"C{k}_{self.uid}"
             self.class_names.append(name)
             before = len(r.newtypes)
@@ -490,6 +491,9 @@ class Chain:
         self.header = ("from __future__ import annotations\n" if sp.postponed else "") + PRELUDE + "\n" + \
             "\n".join(NODE_SRC[i].format(u=self.uid) for i in _used(levels, "node"))
         self.later = "\n".join(LATER_SRC[i].format(u=self.uid) for i in _used(levels, "fwd")) + "\n"
+
+    def base_expr(self, k):
+        return f"C{k - 1}_{self.uid}" if k else "ASTNode"
 
     def text(self):
         return self.header + "\n" + "\n".join(self.sources) + self.later
@@ -506,6 +510,149 @@ class Chain:
                 else:
                     out.append((fn, ty))
         return out
+
+
+def c3_merge(seqs):
+    out = []
+    seqs = [list(q) for q in seqs if q]
+    while seqs:
+        for q in seqs:
+            h = q[0]
+            if not any(h in r[1:] for r in seqs):
+                break
+        else:
+            raise TypeError("inconsistent MRO")
+        out.append(h)
+        seqs = [[x for x in q if x != h] for q in seqs]
+        seqs = [q for q in seqs if q]
+    return out
+
+
+class Hier(Chain):
+    """a family of generated node classes with multiple inheritance: class k declares `levels[k]` and derives from
+    the classes `bases[k]` (indices of earlier classes; [] = ASTNode).  A chain has bases[k] = [k-1]."""
+
+    def __init__(self, levels, bases, sp: Spelling):
+        self.bases = bases
+        self.mros = {}
+        for k in range(len(levels)):
+            self.mro(k)                         # TypeError for an inconsistent hierarchy
+        Chain.__init__(self, levels, sp)
+
+    def base_expr(self, k):
+        return ", ".join(f"C{b}_{self.uid}" for b in self.bases[k]) or "ASTNode"
+
+    def mro(self, k):
+        if k not in self.mros:
+            bs = self.bases[k]
+            self.mros[k] = [k] + c3_merge([self.mro(b) for b in bs] + [list(bs)])
+        return self.mros[k]
+
+    def replay(self, k):
+        """what `dataclasses` writes into the field dict of class k, as a flat list of declarations: for every class of
+        the reversed MRO the *resolved fields of that class* (= its own replay), then the own declarations"""
+        out = []
+        for b in reversed(self.mro(k)[1:]):
+            out += self.replay(b)
+        return out + list(self.levels[k])
+
+    def effective(self, k):
+        out: list = []
+        for fn, ty in self.replay(k):
+            for i, (n, _) in enumerate(out):
+                if n == fn:
+                    out[i] = (fn, ty)
+                    break
+            else:
+                out.append((fn, ty))
+        return out
+
+    def hinted(self, k):
+        """name -> type as typing.get_type_hints resolves it: the first class of the MRO that declares the name"""
+        out = {}
+        for j in reversed(self.mro(k)):
+            for fn, ty in self.levels[j]:
+                out[fn] = ty
+        return out
+
+    def coherent(self):
+        """dataclasses (replay of the resolved fields of every base) and get_type_hints (own annotations along the MRO)
+        agree on the type of every field of every class.  They can differ in a diamond whose *later* branch overrides a
+        field of the common base (`A.x: int; B(A).x: Node; C(A); D(C, B)`: the dataclass field of D is A's, the hint is
+        B's) - a quirk of dataclasses, not a case the property speaks about; such hierarchies are not generated."""
+        for k in range(len(self.levels)):
+            h = self.hinted(k)
+            if any(h[fn] != ty for fn, ty in self.effective(k)):
+                return False
+        return True
+
+
+def run_hier(h: Hier, order):
+    """exec the hierarchy in a fresh module.  Returns ({class index: observation}, phases); a class whose definition
+    was not attempted (one of its bases could not be defined) has no entry.  The observation lists EVERY generated
+    dataclass field of the class (dataclasses.fields minus the fields of ASTNode itself)."""
+    import dataclasses
+    from pyoak.error import InvalidFieldAnnotations
+    from pyoak.node import ASTNode
+
+    shared()
+    mod = types.ModuleType(h.modname)
+    sys.modules[h.modname] = mod
+    ns = mod.__dict__
+    flags = __future__.annotations.compiler_flag if h.sp.postponed else 0
+
+    def compile(src, name, mode):  # noqa: A001
+        return builtins.compile(src, name, mode, flags=flags, dont_inherit=True)
+
+    own = {f.name for f in dataclasses.fields(ASTNode)}
+    phases = []
+    results: dict = {}
+    defined = set()
+    try:
+        exec(compile(h.header, h.modname, "exec"), ns)
+        for k, src in enumerate(h.sources):
+            if any(b not in defined for b in h.bases[k]):
+                continue
+            try:
+                exec(compile(src, h.modname, "exec"), ns)
+                defined.add(k)
+            except InvalidFieldAnnotations:
+                results[k] = ("reject",)
+                phases.append("def")
+            except Exception as e:  # noqa
+                results[k] = ("other", type(e).__name__ + "@def")
+        exec(compile(h.later, h.modname, "exec"), ns)
+        for k in order:
+            if k not in defined:
+                continue
+            cls = ns[h.class_names[k]]
+            types_ = dict(h.effective(k))
+            try:
+                names = [f.name for f in dataclasses.fields(cls) if f.name not in own]
+                kwargs = {fn: sample_value(types_[fn], ns, h.uid) if fn in types_ and child_shape(types_[fn]) else None
+                          for fn in names}
+                cls(**kwargs)
+                kids = {f.name for f in cls.get_child_fields()}
+                props = {f.name for f in cls.get_property_fields()}
+                obs = []
+                for fn in names:
+                    a, b = fn in kids, fn in props
+                    obs.append((fn, "both" if a and b else "child" if a else "prop" if b else "neither"))
+                results[k] = ("ok", obs)
+            except InvalidFieldAnnotations:
+                results[k] = ("reject",)
+                phases.append("use")
+            except Exception as e:  # noqa
+                results[k] = ("other", type(e).__name__)
+        return results, phases
+    finally:
+        sys.modules.pop(h.modname, None)
+
+
+def request_class(h: Hier, k):
+    """the class as ONE level holding the whole replay (duplicated names included): the model's own `addField`
+    fold resolves it (Props/C11.lean `classOutcome_flatten`)"""
+    return [A("c11-chain"), [A("level")] + [[A(fn), sx(ty)] for fn, ty in h.replay(k)]]
 
 
 def sample_value(t, ns, uid):
